@@ -35,7 +35,8 @@ def parsePts (d : Nat) : Nat → List String → Option (List Pt × List String)
     pure ({ mjd := mjd, coord := cs, form := fo, frame := fr } :: ps, rest)
   | _, _ => none
 
-/-- ops on an ephemeris: `I <date>` interpolate (one reply), `C <n points>` convert every point in place -/
+/-- ops on an ephemeris: `I <date>` interpolate (one reply), `C <n points>` convert every point in place,
+`O <k>` set the order, `M <l|g>` set the method -/
 partial def runOps (d n : Nat) (e : Eph) (acc : List String) : List String → Option (List String)
   | [] => some acc.reverse
   | "I" :: date :: rest => do
@@ -49,6 +50,12 @@ partial def runOps (d n : Nat) (e : Eph) (acc : List String) : List String → O
     let (ps, rest) ← parsePts d n rest
     let conv : Pt → Pt := fun p => (ps.find? (fun q => q.mjd == p.mjd)).getD p
     runOps d n (e.convert conv) acc rest
+  | "O" :: k :: rest => do
+    let k ← k.toInt?
+    runOps d n (e.setOrder k) acc rest
+  | "M" :: m :: rest => do
+    let m ← method? m
+    runOps d n (e.setMethod m) acc rest
   | _ => none
 
 /--
